@@ -59,7 +59,7 @@ PROPS = {
                             R("cutsrepair", [], [5], 1, False), R("cutsrepair", [], [6], 12, False)]}),
     "C10": dict(
         owns=lambda kind, op, rule: rule not in ("order", "extract") and (kind == "cuts" or op in ("delete", "law")),
-        tiers={"quick": [R("edit", ["insert", "embed"], [4], 1), R("cuts", [], [4, 5], 1),
+        tiers={"quick": [R("edit", ["insert", "embed"], [4], 1), R("cuts", [], [4], 1), R("cuts", [], [5], 2, False),
                          R("edit", ["insert", "embed"], [5], 9, False)],
                "thorough": [R("edit", ["insert", "embed"], [3, 4], 1), R("edit", ["insert", "embed"], [5], 1),
                             R("cuts", [], [3, 4, 5], 1), R("cuts", [], [6], 2, False),
